@@ -82,7 +82,9 @@ func (r *ReadBuffer) ReadBytes(n int) []byte {
 		return nil
 	}
 
-	if len(r.remaining) < n {
+	// n may be derived from peer-supplied data (e.g. a varint length), and
+	// can be negative after conversion to int.
+	if n < 0 || len(r.remaining) < n {
 		r.err = ErrEOF
 		return nil
 	}
@@ -98,7 +100,7 @@ func (r *ReadBuffer) SkipBytes(n int) {
 		return
 	}
 
-	if len(r.remaining) < n {
+	if n < 0 || len(r.remaining) < n {
 		r.err = ErrEOF
 		return
 	}
